@@ -37,6 +37,9 @@ def build_schema(spec=None):
         d=fields.DATETIME(sortable=spec.get("d_sortable", False), stored=False),
         g=fields.ID(stored=True, sortable=spec.get("g_sortable", False)),
     )
+    if spec.get("c_column"):
+        # a field that is a column only (no postings, not stored)
+        s.add("c", fields.COLUMN())
     return s
 
 
@@ -52,6 +55,8 @@ def doc_kwargs(doc):
         kw["d"] = to_date(doc["d"])
     if doc.get("g") is not None:
         kw["g"] = doc["g"]
+    if doc.get("c") is not None:
+        kw["c"] = doc["c"].encode("utf8")
     if doc.get("boost") not in (None, 1.0):
         kw["_boost"] = doc["boost"]
     return kw
